@@ -18,10 +18,13 @@ pub struct Case {
 	/// dynamic sites sharing the bootstrap method of the first one (see gen::share_bsms); 0 = none
 	#[serde(default)]
 	pub share: u16,
+	/// an attribute payload around / beyond 64 KiB (gen::add_big_attribute); 0 = none
+	#[serde(default)]
+	pub big: u32,
 }
 
 fn strategy() -> impl Strategy<Value = Case> {
-	(class_stream(), choices(), choices(), prop_oneof![2 => Just(0u16), 1 => Just(0xffffu16), 1 => any::<u16>()]).prop_map(|(stream, c1, c2, share)| Case { stream, c1, c2, share })
+	(class_stream(), choices(), choices(), prop_oneof![2 => Just(0u16), 1 => Just(0xffffu16), 1 => any::<u16>()], crate::classfile::gen::big_choice()).prop_map(|(stream, c1, c2, share, big)| Case { stream, c1, c2, share, big })
 }
 
 pub fn first_diff(a: &CClass, b: &CClass) -> String {
@@ -205,6 +208,9 @@ fn fidelity(case: &Case, obs: &mut Obs) -> PropResult {
 	let mut model = class_from_stream(&case.stream, 4, 40);
 	let shared = crate::classfile::gen::share_bsms(&mut model, case.share);
 	obs.label_if(shared > 0, "dynamic_sites_sharing_a_bootstrap_method");
+	if let Some(size) = crate::classfile::gen::add_big_attribute(&mut model, case.big) {
+		obs.label(if size > 65535 { "attribute_payload>65535" } else { "attribute_payload<=65535" });
+	}
 	let canon = model.canon();
 	let mut projections: Vec<CClass> = Vec::new();
 	let mut forms_all: Vec<&'static str> = Vec::new();
